@@ -15,7 +15,7 @@ impl Operation for Get {
     const NAME: &'static str = "get";
     const REQUIRED_CAPABILITIES: Requirements = Requirements::None;
 
-    type Builder<'a> = Builder;
+    type Builder<'a> = Builder<'a>;
     type Reply = DataReply<Opaque>;
 }
 
@@ -35,26 +35,30 @@ impl WriteXml for Get {
 
 #[derive(Debug, Clone)]
 #[must_use]
-pub struct Builder {
+pub struct Builder<'a> {
+    ctx: &'a Context,
     filter: Option<Filter>,
 }
 
-impl Builder {
+impl Builder<'_> {
     pub fn filter(mut self, filter: Option<Filter>) -> Self {
         self.filter = filter;
         self
     }
 }
 
-impl super::Builder<'_, Get> for Builder {
-    fn new(_: &Context) -> Self {
-        Self { filter: None }
+impl<'a> super::Builder<'a, Get> for Builder<'a> {
+    fn new(ctx: &'a Context) -> Self {
+        Self { ctx, filter: None }
     }
 
     fn finish(self) -> Result<Get, Error> {
-        Ok(Get {
-            filter: self.filter,
-        })
+        // the filter type must be supported by the server (`:xpath` for XPath filters)
+        let filter = self
+            .filter
+            .map(|filter| filter.try_use(self.ctx))
+            .transpose()?;
+        Ok(Get { filter })
     }
 }
 
